@@ -32,7 +32,7 @@ def run(ctx):
     F = ctx.F
     res = RuleResult('R-OFFSETS', 'code offsets: recorded before encoding, synthetic ones filtered, measured not recomputed, tombstoned')
     res.floor = 10
-    for fn in (record_before_encode, default_filter, provenance, parse_mapping, dwarf_closure, zerodec):
+    for fn in (record_before_encode, provenance, parse_mapping, dwarf_closure, zerodec):
         try:
             fn(F, res)
         except (EvalError, KeyError, IndexError) as e:
@@ -80,34 +80,6 @@ def record_before_encode(F, res):
                     'after the instruction points at the next one' % (name, loc))
 
 
-# ---------------------------------------------------------------- (b)
-def default_filter(F, res):
-    p = 'module::functions::collect_non_default_code_offsets'
-    pol = Policy(effects=[r'BTreeMap::insert$', r'InstrLocId::is_default$'], inline=lambda p: False)
-    ws = Evaluator(F, pol).run_fn(p, [sym('code_transform'), sym('code_offset'), sym('map')])
-    ins_default = ins_real = None
-    val_ok = False
-    for w in ws:
-        at = {show(k[1]): v for k, v in w.assumptions if isinstance(k, tuple) and k[0] == 'atom'}
-        d = [v for k, v in at.items() if k.startswith('is_default(')]
-        ins = [e for e in w.trace if e['kind'] == 'call' and e['callee'].endswith('BTreeMap::insert')]
-        if not d:
-            continue
-        if d[0]:
-            ins_default = bool(ins)
-        else:
-            ins_real = bool(ins)
-            if ins:
-                k, v = show(ins[0]['args'][1]), show(ins[0]['args'][2])
-                val_ok = k == 'elem(map).0' and v in ('(elem(map).1 Add code_offset)', '(code_offset Add elem(map).1)')
-    if ins_default is False and ins_real is True and val_ok:
-        res.ok('filter/synthetic-locations', {'insert': '(src, dst + code_offset) iff !src.is_default()'})
-    else:
-        res.bad('filter/synthetic-locations', 'collect_non_default_code_offsets must insert (src, dst + code_offset) exactly for locations '
-                'that are not the default (synthetic) one (default inserted: %s, real inserted: %s, value ok: %s)'
-                % (ins_default, ins_real, val_ok))
-
-
 # ---------------------------------------------------------------- (e)
 def leaves_ok(t, problems, seen=None):
     """walk an offset term; allowed: Add/Sub, lossless casts, measurement calls, loop variables, literal 0"""
@@ -149,16 +121,71 @@ def leaves_ok(t, problems, seen=None):
 
 
 def provenance(F, res):
+    """(b)+(e) on one evaluation of the code-section emitter with the helpers next to it looked through: what is
+    published (instruction_map inserts, function_ranges, code_section_start, the running cursor) and from what."""
+    from heval import local_policy
     p = '<module::functions::ModuleFunctions as emit::Emit>::emit'
-    nop = Policy(effects=lambda q: (not q.startswith('std::') and not q.startswith('log::')) or 'Vec::push' in q, inline=lambda q: False)
-    ws = Evaluator(F, nop).run_fn(p, [sym('self'), sym('cx')])
-    w = max(ws, key=lambda x: len(x.trace))
+    pol = local_policy(F, p, public_events=True,
+                       events=[r'Vec::push$', r'BTreeMap::insert$', r'::extend$', r'InstrLocId::is_default$'])
+    ws = Evaluator(F, pol, max_worlds=20000).run_fn(p, [sym('self'), sym('cx')])
+    ws = [w for w in ws if w.outcome in ('return', 'pruned')]
+    if not ws:
+        res.error('ModuleFunctions::emit: no analysable path')
+        return
+    # ---- (b) synthetic locations are filtered out, real ones inserted with a rebased offset
+    ins_default = ins_real = None
+    val_ok = False
+    offset_terms = []
+    for w in ws:
+        at = [(k[1], v) for k, v in w.assumptions if isinstance(k, tuple) and k and k[0] == 'atom']
+        d = []
+        for t, v in at:
+            neg = False
+            while isinstance(t, tuple) and t[0] == 'un' and t[1] == 'Not':
+                t, neg = t[2], not neg
+            if isinstance(t, tuple) and t[0] == 'call' and t[1].endswith('InstrLocId::is_default'):
+                d.append((t[2][0], (not v) if neg else v))
+        ins = []
+        for e in w.trace:
+            if e['kind'] != 'call':
+                continue
+            if e['callee'].endswith('BTreeMap::insert') and len(e['args']) == 3:
+                ins.append((e['args'][1], e['args'][2]))
+            elif e['callee'].endswith('::extend') and len(e['args']) == 2:
+                sq = e['args'][1]
+                if isinstance(sq, tuple) and sq[0] == 'seq' and isinstance(sq[2], tuple) and sq[2][0] == 'tup' and len(sq[2][1]) == 2:
+                    ins.append((sq[2][1][0], sq[2][1][1]))
+        if not d:
+            continue
+        key, isdef = d[0]
+        mine = [(k, v) for k, v in ins if k == key]
+        if isdef:
+            ins_default = bool(mine) if ins_default in (None, False) else ins_default
+        elif w.outcome == 'return' or mine:
+            ins_real = bool(mine) if ins_real in (None, True) else ins_real
+            for k, v in mine:
+                # value = the recorded offset of the same entry + a rebasing offset
+                kr = k[1] if k[0] == 'field' and k[2] == '0' else None
+                if v[0] == 'bin' and v[1] == 'Add':
+                    l, r = v[2], v[3]
+                    for x, y in ((l, r), (r, l)):
+                        if kr is not None and x == ('field', kr, '1'):
+                            val_ok = True
+                            offset_terms.append(y)
+    if ins_default is False and ins_real is True and val_ok:
+        res.ok('filter/synthetic-locations', {'insert': '(src, dst + code_offset) iff !src.is_default()'})
+    else:
+        res.bad('filter/synthetic-locations', 'the instruction map must receive (src, dst + code offset) exactly for locations '
+                'that are not the default (synthetic) one (default inserted: %s, real inserted: %s, value ok: %s)'
+                % (ins_default, ins_real, val_ok))
+    # ---- (e) provenance of everything published
+    w = max([x for x in ws if x.outcome == 'return'] or ws, key=lambda x: len(x.trace))
     items = []
+    for t in offset_terms[:1]:
+        items.append(('instruction offsets (rebase)', t))
     for e in w.trace:
         if e['kind'] == 'store' and e['callee'].endswith('code_section_start'):
             items.append(('code_section_start', e['args'][1]))
-        if e['kind'] == 'call' and e['callee'].endswith('collect_non_default_code_offsets'):
-            items.append(('instruction offsets (rebase)', e['args'][1]))
         if e['kind'] == 'call' and e['callee'].endswith('Vec::push') and 'function_ranges' in show(e['args'][0]):
             r = e['args'][1]
             rng = r[1][1] if r[0] == 'tup' else None
@@ -167,8 +194,10 @@ def provenance(F, res):
                 items.append(('function_ranges.end', cfield(rng, 'end')))
         if e['kind'] == 'loop_update' and 'offset' in e['callee']:
             items.append(('running cursor ' + e['callee'], e['args'][1]))
-    if len(items) < 4:
-        res.bad('provenance/missing', 'ModuleFunctions::emit no longer publishes the offsets the rule knows (found %s)' % [n for n, _ in items])
+    names = set(n.split(' ')[0] for n, _ in items)
+    need = {'instruction', 'code_section_start', 'function_ranges.start', 'function_ranges.end'}
+    if not need <= names:
+        res.bad('provenance/missing', 'ModuleFunctions::emit no longer publishes the offsets the rule knows (missing %s)' % sorted(need - names))
         return
     for name, t in items:
         problems = []
@@ -227,73 +256,112 @@ def dwarf_closure(F, res):
     if not h:
         res.bad('dwarf/missing', 'ModuleDebugData::emit not found')
         return
-    # evaluate the two address closures found in the function body
-    closures = []
+    # The address closures are evaluated where they are defined: the enclosing emit is run first (helpers looked
+    # through, captured locals resolved), then each closure is applied to symbolic arguments.
+    from heval import local_policy, UNIT
+    pol = local_policy(F, p, public_events=True, split_try='option')
+    found = {}
 
-    def walk(n):
-        if isinstance(n, dict):
-            if n.get('k') == 'Closure':
-                closures.append(n)
-            for v in n.values():
-                walk(v)
-        elif isinstance(n, list):
-            for v in n:
-                walk(v)
-    walk(h['body'])
-    pol = Policy(inline=lambda q: False)
-    ev = Evaluator(F, pol)
-    # find local ids referenced: bind every free local to a symbol of its name
-    def free_env(cl):
-        env = {}
-
-        def w2(n):
-            if isinstance(n, dict):
-                if n.get('k') == 'Path' and n.get('res') == 'local':
-                    env.setdefault(n['id'], sym(n.get('name') or 'v%d' % n['id'], n.get('ty') or ''))
-                for v in n.values():
-                    w2(v)
-            elif isinstance(n, list):
-                for v in n:
-                    w2(v)
-        w2(cl['body'])
-        return env
-    got_rebase = got_tomb = False
-    for cl in closures:
-        nparams = len(cl.get('params', []))
-        env = free_env(cl)
-        node = {'k': 'Block', 'stmts': [], 'expr': {'k': 'Call', 'l': cl.get('l'), 'f': cl, 'args': [
-            {'k': 'Path', 'res': 'local', 'id': -100 - i, 'name': 'arg%d' % i} for i in range(nparams)]}}
-        for i in range(nparams):
-            env[-100 - i] = sym('arg%d' % i)
+    def run_emit(st):
         try:
-            ws = ev.run_node(p, node, env)
+            st.call_path(p, [sym('self'), sym('cx')], None)
+        except Exception as e:
+            if e.__class__.__name__ not in ('ReturnEx', 'PanicEx', 'Pruned'):
+                raise
+
+    def t0(st):
+        run_emit(st)
+        for k, (c, env, fr) in st.closures.items():
+            found[k] = len(c['params'])
+        return UNIT
+    try:
+        Evaluator(F, pol).run(t0)
+    except EvalError as e:
+        res.error('ModuleDebugData::emit not analysable: %s' % e)
+        return
+    dead = None
+    dc = getattr(F, 'consts', {}).get('module::debug::dwarf::DEAD_CODE')
+    if dc is not None:
+        try:
+            v = Evaluator(F, Policy()).run(lambda st: st.expr(dc['body'], {}))
+            if v and v[0].value is not None and v[0].value[0] == 'lit':
+                dead = v[0].value[1]
+        except EvalError:
+            pass
+    CONV = r'find_address\(new\(cx\.code_transform\), find_address\(new\(cx\.module\.funcs\), \(arg0 as usize\), [^()]+\)\)!?'
+    REB = r'Option::Some\(Address::Constant\(\(\(' + CONV + r' Sub cx\.code_transform\.code_section_start\) as u64\)\)\)'
+    got_rebase = got_tomb = False
+    rebase_why = tomb_why = None
+    for ck, n in sorted(found.items()):
+        def thunk(st, ck=ck, n=n):
+            run_emit(st)
+            if ck not in st.closures:
+                return ('lit', 'closure-not-created', '')
+            return st.call_closure(('closure', ck), [sym('arg%d' % i) for i in range(n)], None)
+        try:
+            ws = Evaluator(F, pol).run(thunk)
         except EvalError:
             continue
-        txt = [show(w.value) if w.value is not None else w.outcome for w in ws]
-        alltxt = ' || '.join(txt)
-        # convert_address: find(...).map(|x| (x - code_section_start) as u64).map(Constant)
-        if 'code_section_start' in alltxt and 'find_address' in alltxt:
-            if re.search(r'Sub cx\.code_transform\.code_section_start', alltxt):
-                got_rebase = True
-        # the gimli callback: 0 / DEAD_CODE pass through, otherwise convert or tombstone
-        if 'DEAD_CODE' in alltxt and nparams == 1:
-            worlds = {}
+        ws = [w for w in ws if w.outcome == 'return' and 'closure-not-created' not in show(w.value)]
+        vals = set(show(w.value) for w in ws)
+        if not any('Address::Constant' in v for v in vals):
+            continue
+
+        def conv_state(w):
+            for k, v in w.assumptions:
+                if not (isinstance(k, tuple) and k and k[0] == 'atom') and re.match('^' + CONV + '$', show(k)) and isinstance(v, tuple):
+                    return v[2]
+            return None
+        if n == 2:
+            # convert_address(address, preference)
+            good = True
             for w in ws:
-                at = {show(k[1]): v for k, v in w.assumptions if isinstance(k, tuple) and k[0] == 'atom'}
-                worlds[tuple(sorted(at.items()))] = show(w.value)
-            passthrough = [v for k, v in worlds.items() if any(val for _, val in k)]
-            fallback = [v for k, v in worlds.items() if k and not any(val for _, val in k)]
-            okp = passthrough and all(v == 'Option::Some(Address::Constant(arg0))' for v in passthrough)
-            okf = fallback and all(re.match(r'^or\(.*Option::Some\(Address::Constant\(DEAD_CODE\(\)\)\)\)$', v) for v in fallback)
-            got_tomb = bool(okp and okf)
+                st_, v = conv_state(w), show(w.value)
+                if st_ == 'None':
+                    good = good and v == 'Option::None'
+                elif st_ == 'Some':
+                    good = good and re.match('^' + REB + '$', v) is not None
+                else:
+                    good = False
+                if not good and rebase_why is None:
+                    rebase_why = 'conversion result %s gives %s' % (st_, v[:120])
+            got_rebase = got_rebase or (good and len(ws) >= 2)
+        elif n == 1:
+            # the gimli callback: 0 / DEAD_CODE pass through, otherwise convert or tombstone
+            good = dead is not None
+            kinds = set()
+            for w in ws:
+                at = {show(k[1]): v for k, v in w.assumptions if isinstance(k, tuple) and k[0] == 'atom' and 'arg0' in show(k[1])}
+                is0 = at.get('(arg0 Eq 0)')
+                isd = at.get('(arg0 Eq %s)' % dead)
+                v = show(w.value)
+                if is0 is True or isd is True:
+                    ok1 = v == 'Option::Some(Address::Constant(arg0))'
+                    kinds.add('pass')
+                else:
+                    st_ = conv_state(w)
+                    if st_ == 'None':
+                        ok1 = v == 'Option::Some(Address::Constant(%s))' % dead
+                        kinds.add('tomb')
+                    elif st_ == 'Some':
+                        ok1 = re.match('^' + REB + '$', v) is not None
+                        kinds.add('conv')
+                    else:
+                        ok1 = False
+                if not ok1 and tomb_why is None:
+                    tomb_why = 'when %s the callback returns %s' % (sorted(at.items()), v[:120])
+                good = good and ok1
+            got_tomb = got_tomb or (good and kinds == {'pass', 'tomb', 'conv'})
     if got_rebase:
         res.ok('dwarf/rebase', {'convert_address': 'output address - code_transform.code_section_start'})
     else:
-        res.bad('dwarf/rebase', 'converted DWARF addresses must be rebased by code_transform.code_section_start')
+        res.bad('dwarf/rebase', 'converted DWARF addresses must be rebased by code_transform.code_section_start'
+                + (' (%s)' % rebase_why if rebase_why else ''))
     if got_tomb:
         res.ok('dwarf/tombstone', {'unconvertible_address': 'DEAD_CODE (0xFFFFFFFF); 0 and DEAD_CODE pass through'})
     else:
-        res.bad('dwarf/tombstone', 'an address that cannot be converted must be replaced by the tombstone DEAD_CODE, never left as it was')
+        res.bad('dwarf/tombstone', 'an address that cannot be converted must be replaced by the tombstone DEAD_CODE, never left as it was'
+                + (' (%s)' % tomb_why if tomb_why else ''))
 
 
 # ---------------------------------------------------------------- (d) R-ZERODEC
